@@ -34,7 +34,7 @@ NOT_DECIDED = ('the digit-level arithmetic of the fast paths (unpacking, overflo
 ASSUMPTIONS = ['C long has at least 32 bits and long long at least 64 bits (C11 5.2.4.2.1); PyLong_SHIFT is 15 or 30 (CPython longintrepr.h)',
                'the special method reached by PyNumber_<Op>/PyObject_RichCompare in the interpreter running the check is the one the target CPython uses']
 EXEMPT = {
-    ('C02-P2', "PyLongBinop.impl:op:'LShift'"):
+    ('C02-P2', "PyLongBinop.impl:op:'LShift':op=='LShift'orop=='Rshift'"):
         "DESIGN.md section 7: the misspelt 'LShift' only disables `if (!negative_shift_works && lla < 0) goto fallback` in the long long branch; "
         "negative_shift_works is 1 on every GCC/Clang/MSVC x86/ARM target, where the statement is a no-op",
 }
@@ -220,8 +220,8 @@ def enumerate_decider(fn, ops):
             for k, v in ctxd.items():
                 try:
                     vals[k] = ev.ev(v)
-                except P.Unknown as e:
-                    raise AnalysisError('%s: context value %s is not decided by the domain: %s' % (DECIDER, k, e))
+                except P.Unknown:
+                    vals[k] = P.UNKNOWN     # an expansion that reads it fails closed (ANALYSIS-ERROR)
             for t in s.targets:
                 if isinstance(t, ast.Name):
                     events.append(('load', t.id, sec, ufile, vals, s.lineno))
@@ -386,7 +386,7 @@ def run(ctx):
         doms = {'op': dom_op, 'order': dom_order, 'c_op': dom_cop}
         for var in ('op', 'order', 'c_op'):
             for lit, kind, src in P.tpl_compared_literals(tree, var):
-                key = '%s.%s:%s:%r' % (sec, typ, var, lit)
+                key = '%s.%s:%s:%r:%s' % (sec, typ, var, lit, re.sub(r'\s+', '', src))
                 rule.inst(key, sample='%s.%s: %s' % (sec, typ, src))
                 if kind == 'eq':
                     bad = lit not in doms[var]
@@ -455,7 +455,11 @@ def run(ctx):
                     rule.violate(key + ':ret:' + typ, REL_OPT, p.load_line,
                                  '%s: ret_type is %s but the C function returns `%s`' % (p.cname, 'a Python object' if p.ret_obj else 'a C truth value', head))
 
+    p1_broken = {f.construct.split('.')[0] for f in r1.findings if ':reads:' in f.construct}
     for p in points:
+        if p.section in p1_broken:
+            r3.inst(p.key(), nontrivial=False)
+            continue
         if p.op not in cop[p.section]:
             r3.inst(p.key())
             r3.violate(p.key() + ':unreachable-op', REL_OPT, p.load_line,
@@ -480,6 +484,12 @@ def run(ctx):
     r3.positive_control({f.construct.split(':', 1)[1].split(':', 1)[1] for f in pc.findings} == {'arity:proto', 'name:impl'} or
                         {f.construct.rsplit(':', 2)[-2] + ':' + f.construct.rsplit(':', 2)[-1] for f in pc.findings} == {'arity:proto', 'name:impl'},
                         'wrong arity in the prototype, other name in the definition')
+    seen, uniq = set(), []
+    for f in r3.findings:
+        if f.construct not in seen:
+            seen.add(f.construct)
+            uniq.append(f)
+    r3.findings = uniq
     rules.append(r3)
 
     # ------------------------------------------------------------------------------------------ PASS: consumers pass 2 operands + extra_args
@@ -586,7 +596,7 @@ def run(ctx):
     # ------------------------------------------------------------------------------------------ SHIFT
     rules.append(rule_shift(ctx, cls, handlers, fw))
     # ------------------------------------------------------------------------------------------ SIB
-    rules.append(rule_sib(ctx, 'C02-SIB', trees[('PyLongBinop', 'impl')], cop['PyLongBinop']))
+    rules.append(P.rule_sib(ctx, 'C02-SIB'))
     return rules
 
 
@@ -735,12 +745,12 @@ def admitted_maximum(fn, fvar, target_pred, op, extra_samples):
         for c in crs:
             typed[c] = samples
         m = 0
-        for subst, av, vals in P.truth_table(tests, typed):
+        mine = [c for c in crs if not c.startswith(ps[4] + '.') and not c.startswith(ps[3] + '.')]
+        for subst, av, vals in P.truth_table(tests, typed, focus=(conds, mine)):
             if P.conj_holds(conds, vals):
-                for c in crs:
-                    if not c.startswith(ps[4] + '.') and not c.startswith(ps[3] + '.'):
-                        m = max(m, abs(subst[c]))
-                        var = c
+                for c in mine:
+                    m = max(m, abs(subst[c]))
+                    var = c
         if var is None:
             # no guard mentions the constant at all
             m = max(abs(x) for x in samples)
@@ -799,7 +809,7 @@ def rule_range(ctx, fn, fvar, points, trees, cop):
         pts = [p for p in points if p.op == op and p.section == 'PyLongBinop' and p.order == 'ObjC' and p.ret_obj]
         if not pts:
             raise AnalysisError('multiplication never reaches PyLongBinop')
-        text = P.tpl_expand(trees[('PyLongBinop', 'impl')], dict(pts[0].context))
+        text = P.tpl_expand(trees[('PyLongBinop', 'impl')], dict(op=op, order='ObjC', ret_type=P.Obj(is_pyobject=True)))
         total += checks(r, m_adm, var, capped, text, op)
     if total < 4:
         raise AnalysisError('PyLongBinop(Multiply): only %d head-room tests of the form `size == N && 8*sizeof(T)-1 > N*PyLong_SHIFT+H` found' % total)
@@ -875,94 +885,4 @@ def rule_shift(ctx, cls, handlers, fw):
                     "    return self._optimise_num_binop('Lshift', node, function, args, is_unbound_method)\n").body[0]
     got = {k for k, _ in problems(pcf, 'Lshift', True)}
     r.positive_control(got == {'rhs-int', 'count'}, 'missing isinstance guard and count 64')
-    return r
-
-
-# ----------------------------------------------------------------------------------------------------------------- SIB1
-COPY_RE = re.compile(r'see\s+(\w+\.c)\s*::\s*(\w+)\s+utility code')
-
-
-def original_alternatives(ctx, ufile, section):
-    from ..engine.absint import clang_function_ast
-    d = ctx.cat.files.get(ufile, {}).get(section, {}).get('impl')
-    if d is None:
-        raise AnalysisError('declared original %s::%s does not exist' % (ufile, section))
-    text = strip_c_comments(d.raw)
-    text = text.replace('%(type)s', 'long').replace('%(type_name)s', 'long').replace('%%', '%')
-    if '%(' in text:
-        raise AnalysisError('%s::%s has substitution keys other than type/type_name' % (ufile, section))
-    m = re.search(r'\b(__Pyx_\w+)\s*\(', text)
-    if not m:
-        raise AnalysisError('%s::%s defines no __Pyx_ function' % (ufile, section))
-    fa = clang_function_ast(text, m.group(1), prelude='#define CYTHON_INLINE\n#define CYTHON_UNUSED_VAR(x) (void)(x)\n')
-    params = [c['name'] for c in fa.get('inner', []) if c.get('kind') == 'ParmVarDecl']
-    if len(params) < 2:
-        raise AnalysisError('%s::%s: unexpected signature' % (ufile, section))
-    tree = P.symbolic_result(fa)
-    tree = P.rename_vars(tree, {params[0]: 'a', params[1]: 'b'})
-    alts = [tree]
-    for flag in params[2:]:
-        alts = [x for t in alts for x in P.alternatives(t, flag)]
-    return alts
-
-
-def copy_sites(expanded):
-    """[(original file, section, block text, c type, left var, right var)] for each declared copy in an expanded PyLongBinop (order ObjC)."""
-    out = []
-    plain = strip_c_comments(expanded)
-    consts = {m.group(1).strip(): m.group(2) for m in re.finditer(r'\bconst\s+(long|PY_LONG_LONG)\s+(\w+)\s*=\s*intval\s*;', plain)}
-    others = {}
-    for m in re.finditer(r'^[ \t]*(long|PY_LONG_LONG)\s+(\w+)\s*;', plain, re.M):
-        others.setdefault(m.group(1), m.group(2))
-    for m in COPY_RE.finditer(expanded):
-        blk = P.enclosing_block(expanded, m.start())
-        if blk is None:
-            raise AnalysisError('declared copy of %s is not inside a block' % m.group(2))
-        body = strip_c_comments(blk)
-        ctype = 'PY_LONG_LONG' if re.search(r'\bPY_LONG_LONG\b', body) else 'long'
-        if ctype not in consts or ctype not in others:
-            raise AnalysisError('operand variables of type %s (const X = intval; and its partner) not found in the expanded function' % ctype)
-        out.append((m.group(1), m.group(2), body, ctype, others[ctype], consts[ctype]))
-    return out
-
-
-def copy_tree(body, ctype, left, right, fname='sib_copy'):
-    from ..engine.absint import clang_function_ast
-    src = ('typedef long long PY_LONG_LONG;\nvoid *PyLong_FromLong(long);\nvoid *PyLong_FromLongLong(long long);\n'
-           'void *%s(%s %s, %s %s) %s\n' % (fname, ctype, left, ctype, right, body))
-    fa = clang_function_ast(src, fname, prelude='')
-    t = P.symbolic_result(fa)
-    if t[0] == 'call' and len(t) == 3:
-        t = t[2]
-    return P.rename_vars(t, {left: 'a', right: 'b'})
-
-
-def rule_sib(ctx, rid, tree, cop):
-    r = Rule(rid, 'SIB1: every block of PyLongBinop that declares itself a copy of CMath.c DivInt / ModInt computes the same expression tree as the original '
-                  '(modulo variable names and operand type; either arm of the b_is_constant choice)', floor=4)
-    originals = {}
-
-    def check(rule, ufile, section, body, ctype, left, right, op):
-        key = 'PyLongBinop(%s):%s:%s' % (op, section, ctype)
-        if (ufile, section) not in originals:
-            originals[(ufile, section)] = original_alternatives(ctx, ufile, section)
-        t = copy_tree(body, ctype, left, right)
-        rule.inst(key, sample='%s = %s' % (key, P.tree_text(t)[:120]))
-        if t not in originals[(ufile, section)]:
-            rule.violate(key, REL_C, 0,
-                         'the %s block of PyLongBinop(op=%s) says "see %s :: %s" but computes %s where the original computes %s: '
-                         'Python-object and C-integer %s disagree for some sign combination'
-                         % (ctype, op, ufile, section, P.tree_text(t), ' or '.join(P.tree_text(x) for x in originals[(ufile, section)]),
-                            'floor division' if 'Div' in section else 'modulo'))
-    n = 0
-    for op in sorted(cop):
-        if cop[op] not in ('/', '%'):
-            continue
-        text = P.tpl_expand(tree, dict(op=op, order='ObjC', ret_type=P.Obj(is_pyobject=True)))
-        for ufile, section, body, ctype, left, right in copy_sites(text):
-            n += 1
-            check(r, ufile, section, body, ctype, left, right, op)
-    pc = Rule('x', 'x')
-    check(pc, 'CMath.c', 'DivInt', '{ long q, r; q = a / b; r = a - q*b; q -= ((r != 0) & ((r ^ a) < 0)); return PyLong_FromLong(q); }', 'long', 'a', 'b', 'FloorDivide')
-    r.positive_control(len(pc.findings) == 1, 'copy testing the sign of a instead of b')
     return r
